@@ -551,6 +551,7 @@ def merge(tmpl_toks, src_exec):
     prev_changed = False
     last_exec = '{'
     merge.perturbed = False   # a proof statement was dropped, or stands right next to changed executable text
+    merge.dropped = False     # a proof statement was dropped
     GST = ('proof', 'assert', 'assume', 'reveal')
     def ghost_stmt(ts):
         return any(t.ghost and (t.text in GST or (t.text == 'let' and k + 1 < len(ts) and ts[k + 1].text == 'ghost')) for k, t in enumerate(ts))
@@ -566,6 +567,8 @@ def merge(tmpl_toks, src_exec):
             # statement they were written for is gone and they would end up inside an expression (dropped: dropping
             # ghost code can only make an obligation harder to prove)
             if prev_changed and lead and lead[0].text in ('proof', 'let', 'assert', 'assume', 'reveal') and last_exec not in (';', '{', '}'):
+                if ghost_stmt(lead):
+                    merge.dropped = True
                 lead = []
             out.extend(lead)
             out.extend(tmpl_toks[first:stop])
@@ -589,6 +592,8 @@ def merge(tmpl_toks, src_exec):
                 # chunks with the following statement: emit insertion right here (after previous exec token)
             if ghost_stmt(tmpl_toks[pos:first]) or (i2 > i1 and ghost_stmt(tmpl_toks[first:exec_idx[i2 - 1] + 1])):
                 merge.perturbed = True
+            if i2 > i1 and ghost_stmt(tmpl_toks[first:exec_idx[i2 - 1] + 1]):
+                merge.dropped = True
             # ghost tokens that sit before the first deleted exec token stay in front
             lead = [t for t in tmpl_toks[pos:first] if t.ghost] if i2 > i1 else []
             if i2 == i1:
@@ -632,6 +637,11 @@ def merge(tmpl_toks, src_exec):
     sa = set(x for k, x in enumerate(a) if not is_field(a, k))
     sb = set(x for k, x in enumerate(b) if not is_field(b, k))
     ren = {x: y for x, y in ren.items() if x not in bad and x not in sb and y not in sa and x not in KEYWORDS and y not in KEYWORDS}
+    # a rename keeps the number of occurrences (otherwise the new name is another variable that happens to stand where the old
+    # one was declared)
+    cnt_a = lambda x: sum(1 for k, z in enumerate(a) if z == x and not is_field(a, k))
+    cnt_b = lambda y: sum(1 for k, z in enumerate(b) if z == y and not is_field(b, k))
+    ren = {x: y for x, y in ren.items() if cnt_a(x) == cnt_b(y)}
     if ren:
         for k, t in enumerate(out):
             if getattr(t, 'ghost', False) and t.kind == 'ident' and t.text in ren and not is_field([z.text for z in out[max(0, k - 1):k + 2]], 1 if k > 0 else 0):
@@ -704,6 +714,27 @@ _tmpl_cache = {}
 # the statement skeleton of a function body: an edit that leaves it alone keeps every proof annotation on the statement
 # it was written for; an edit that changes it (statements added, removed, moved; branches swapped) may leave annotations
 # behind, so a proof that then fails says nothing about the code
+NEUTRAL = {'!', '(', ')', 'return', ';', ',', '{', '}', 'let', 'mut', '=', ':', 'else', 'ref', '&', '*', 'bool', 'usize', 'u8', 'u32', 'u64'}
+
+
+def content_bag(ts):
+    """the tokens of a function body that carry meaning beyond arrangement: operators, literals, field / method / function
+    / type names - without local variable names, punctuation, `!`, `return`, `else` and type annotations of primitives. Two
+    versions with the same bag differ only in how the same material is arranged (statements or operands reordered, branches
+    flipped, temporaries introduced or inlined, locals renamed)."""
+    bag = {}
+    for k, x in enumerate(ts):
+        if x in NEUTRAL:
+            continue
+        if re.match(r'^[a-z_][a-z0-9_]*$', x) and x not in KEYWORDS:
+            prev = ts[k - 1] if k > 0 else ''
+            nxt = ts[k + 1] if k + 1 < len(ts) else ''
+            if prev not in ('.', '::') and nxt not in ('(', '::', '!'):
+                continue   # a local variable or parameter name
+        bag[x] = bag.get(x, 0) + 1
+    return bag
+
+
 SKELETON = {';', '{', '}', 'if', 'else', 'while', 'for', 'loop', 'match', 'return', 'let', '=>', 'break', 'continue', '?'}
 
 
@@ -963,6 +994,7 @@ def generate(unit, canary=False, expand=True):
                 else:
                     gen = merge(ttoks, stoks)
                     perturbed = merge.perturbed
+                    dropped = merge.dropped
                 if gen and gen[0] is not ttoks[0]:
                     gen[0].trivia = ttoks[0].trivia
                 eg = [t.text for t in gen if not t.ghost]
@@ -992,10 +1024,13 @@ def generate(unit, canary=False, expand=True):
                     gen2 = gen[:it2.body_open + 1] + c + gen[it2.body_open + 1:]
                 gen = gen2
             restructured = False
+            rearranged = False
             if status != 'merged' or item.kind != 'fn':
                 perturbed = False
+                dropped = False
             if status == 'merged' and item.kind == 'fn':
                 restructured = [x for x in et if x in SKELETON] != [x for x in es if x in SKELETON]
+                rearranged = content_bag(et) == content_bag(es)
                 for k3, t3 in enumerate(gen):
                     if not t3.ghost and re.match(r'^[A-Z][A-Z0-9_]{2,}$', t3.text) and (k3 == 0 or gen[k3 - 1].text != '::'):
                         unit.caps_idents.add((t3.text, rel))
@@ -1004,7 +1039,7 @@ def generate(unit, canary=False, expand=True):
             start_line, end_line = len(out_chunks) - 1, gen[0].trivia.count('\n')
             for k2, v in hits.items():
                 unit.hits[k2] = unit.hits.get(k2, 0) + v
-            unit.items.append({'file': rel, 'path': ' :: '.join(path), 'kind': item.kind, 'status': status, 'restructured': restructured, 'perturbed': perturbed,
+            unit.items.append({'file': rel, 'path': ' :: '.join(path), 'kind': item.kind, 'status': status, 'restructured': restructured, 'perturbed': perturbed, 'dropped': dropped, 'rearranged': rearranged,
                                'hits': hits, 'lines': (start_line, end_line), 'src_line': stoks_all[sitem.hstart].line,
                                'has_body': item.kind == 'fn' and item.body_open is not None})
             pos = item.end
